@@ -153,7 +153,7 @@ def _pairs_work(units):
     from ..common import quiet
 
     out = {"cov": {}, "viol": [], "outcomes": [], "samples": [], "known": {}}
-    probes = [{"uid": u} for u in (1, "1", 7, "x")]
+    probes = [{"uid": u} for u in (1, "1", 7, "x", 2, 3, 4, 5, 6, 8, 9, 10)]
     for name, cur, other in units:
         fresh = impl.build(other)
         want_ok = fresh[0] == "ok"
@@ -171,7 +171,7 @@ def _pairs_work(units):
                 raised = True
             after = [impl.call(b[1], x) for x in probes]
             out["cov"]["transitions"] = out["cov"].get("transitions", 0) + 1
-            ok = (not raised and after == want) if want_ok else (raised and after == before)
+            ok = (not raised and repr(after) == repr(want)) if want_ok else (raised and repr(after) == repr(before))  # repr: 1 is not 1.0
             out["outcomes"].append(f"pair:{name.split('/')[0]}:{want_ok}:{ok}")
             if not ok:
                 out["cov"]["violating_cases"] = out["cov"].get("violating_cases", 0) + 1
@@ -208,7 +208,7 @@ def collision_pairs(res):
         units.append((name, cur, other))
     # texts that a NORMALISING change detector / parse cache would confuse: they differ only inside a comment-looking
     # region of a string literal, only in blanks / exotic line-boundary characters inside a literal, only in letter case
-    T = 'def exp {{ splitters: uid return {0} weighted 1, "z" weighted 1 }}'
+    T = 'def exp {{ splitters: uid return {0} weighted 3, "z" weighted 1 }}'
     twins = [('"http://old.example/a"', '"http://new.example/b"'), ('"img/*.png"', '"img/*.jpg"'), ('"x//y"', '"x//z"'), ('"p q"', '"p  q"'), ('"p\x0cq"', '"p\x0c q"'),
              ('"p\rq"', '"p\r q"'), ('"p\u2028q"', '"p\x85q"'), ('"Pq"', '"pq"'), ('"q "', '"q"'), ("'s'", '"s"'), ('"a\tb"', '"a b"'), ('"é"', '"e\u0301"'),
              ('"home page"', '"homepage"'), ('"a b"', '"ab"'), ('" "', '""'), ('"x\ty"', '"xy"'), ('"q"', "'q '"), ('"it\'s"', '"its"'), ('"pricing\'"', '"pricing"'),
